@@ -152,6 +152,16 @@ CHECKS['C09'] = dict(
    design_ref='5.9',
    note='Trusted: TLC, CommunityModules, g++, the frozen TLA+ semantics. Counts are enumerated for small values and sampled above.',
    technique='TLA+ spec: TLC evaluation of parametrised loop programs + TLC trace validation (system and instruction level)')
+CHECKS['C05'] = dict(
+   text='Total over all 65536 first words: TLC validates against the frozen decode table that every renderable opcode assembles to its '
+        'canonical word with the same length and identical disassembly for several second words, that the joined text and the C '
+        'binding equal the token list; for sampled words the C binding is run into a canary-framed buffer of every size 0..len+2; every '
+        'line of the four firmware sources is validated against the shipped binaries in both directions, and makedsp1 reproduces them '
+        'byte for byte.',
+   design_ref='5.5',
+   note='Trusted: TLC, CommunityModules, g++; TeakDecodeTable.tla (frozen). Second words are sampled (4 per opcode); the byte-for-byte '
+        'comparison of makedsp1 output is a direct file comparison made by the runner.',
+   technique='TLA+ spec (decode table) + TLC validation of total assembler/disassembler dumps, buffer sweeps and firmware line records')
 NOT_YET = {}
 def main():
     props = [json.loads(l)['id'] for l in open(os.path.join(V, 'properties.jsonl'))]
